@@ -317,6 +317,8 @@ def plan(tier, seed):
 
 
 DIRECTED_QUERIES = [
+    "$[?@.a =~ /a{99999999999}/]", "$[?match(@.a, 'a{99999999999}')]", "$[?search(@.a, '(?a)(?u)a')]", "$[?match(@.a, @.b)]", "$[?@.a =~ /(?a)(?u)a/]", "$[?@.a =~ /a{2,1}/]", "$[?match(@.a, '[z-a]')]", "$[?search(@.a, '(?P<n>a)(?P<n>b)')]",
+    "$[" + "1" * 4301 + "]", "$[:" + "1" * 4301 + "]", "$[?@.a == " + "7" * 4301 + "]", "$[?@.a == " + "7" * 400 + ".5]", "$[?@.a == 1e" + "9" * 4301 + "]", "$[?@[" + "1" * 4301 + "]]",
     "$[1e2]", "$[1e400]", "$[?@.a == 1e400]", "$[?@.a == 1.0e400]", "$[?@.a == -1e400]", "$[?@.a =~ /(/]", "$[?@.a =~ /a\\/b/]", "$[?@.a =~ /[/]", "$[?1 in 'abc']", "$[?@ in 'abc']",
     "$[?count(@) == 1]", "$[?value(@) == 1]", "$[?length(@) == 1]", "$[-:]", "$[:-]", "$[::-]", "$[+1]", "$[1:+2]", "$[?@.a == +1]", "$[?@.a == -]", "$[?@ == 1e]", "$[?@ == 1e+]", "$[?@ == .5]", "$[?@ == 1.]",
     "$[?@ in {}]", "$[?[] in @]", "$[?[1] contains @]", "$[?@ contains [1]]", "$[?@.a contains @.b]", "$[?@.a in @.b]", "$[?{} == @]", "$['\\ud800']", "$['\\u']", "$['\\x']", "$[\"\\']", "$['", "$[\"", "$[?@ == '",
@@ -405,11 +407,11 @@ def run_workload(spec, ctx):
         ctx.count("function_argument_matrix_queries", n_fn)
         for text in DIRECTED_QUERIES:
             query_case(ctx, text, ROOT_DOCS + [[{"a": v, "b": w} for v in (1, "x", None, [1], {"k": 1}, True, 1.5, "abc") for w in ("abc", [1], {"x": 1}, 2)]])
-        for text in ("/#abc", "/a\\", "/\\u00e9", "/\\ud83d", "/\\", "\\", "/%", "/%zz", "/~", "/~2", "a", " /a", "/" + "9" * 30, "/-" + "9" * 30, "/#", "/#-1", "/#1e2", "/a/#", "0#", "0", "1#", "0+1", "0-1", "0+10", "0+99999999999999999999999", "/\x00", "/퟿"):
+        for text in ("/" + "1" * 4301, "/a/-" + "1" * 4301, "0+" + "1" * 4301, "1" * 4301, "1" * 4301 + "#", "/#" + "1" * 4301, "/#abc", "/a\\", "/\\u00e9", "/\\ud83d", "/\\", "\\", "/%", "/%zz", "/~", "/~2", "a", " /a", "/" + "9" * 30, "/-" + "9" * 30, "/#", "/#-1", "/#1e2", "/a/#", "0#", "0", "1#", "0+1", "0-1", "0+10", "0+99999999999999999999999", "/\x00", "/퟿"):
             pointer_case(ctx, text, ROOT_DOCS + [{"a": [1, 2], "#abc": 1, "é": 2}])
         for ops in ([{"op": "remove", "path": "/1"}], [{"op": "move", "from": "/a", "path": "/b/-"}], [{"op": "copy", "from": "/a", "path": "/b/-"}], [{"op": "add", "path": "/b/1e0", "value": 1}], [{"op": "add", "path": "/a\\", "value": 1}],
                     [{"op": "add", "path": "a", "value": 1}], [{"op": "test", "path": "/zz/zz", "value": 1}], [{"op": "move", "from": "/b/5", "path": "/a"}], [{"op": "replace", "path": "/b/-", "value": 1}], [{"op": "remove", "path": "/b/-"}],
-                    [{"op": "add", "path": "/b/#0", "value": 1}], [{"op": "remove", "path": "/#a"}], [{"op": "copy", "from": "/b/#1", "path": "/c"}], [{"op": "move", "from": "", "path": "/a/x"}], [{"op": "add", "path": "/" + "9" * 30, "value": 1}]):
+                    [{"op": "add", "path": "/b/#0", "value": 1}], [{"op": "add", "path": "/b/" + "1" * 4301, "value": 1}], [{"op": "move", "from": "/b/" + "1" * 4301, "path": "/a"}], [{"op": "remove", "path": "/#a"}], [{"op": "copy", "from": "/b/#1", "path": "/c"}], [{"op": "move", "from": "", "path": "/a/x"}], [{"op": "add", "path": "/" + "9" * 30, "value": 1}]):
             patch_case(ctx, ops, [{"a": {"1": 2}, "b": [1, 2], "1": 0}, {"1": "x"}] + ROOT_DOCS)
 
 
